@@ -446,8 +446,8 @@ impl Property for StreamProp {
         match self.id {
             "C11" => "StreamLab: tape a -> run tree (features/rules/scenarios/retry chains, per-attempt events from the reference attempt model over random outcomes, parser errors); tape b -> a random linearisation respecting happened-before (or the sequential one). Oracle runs after every handle_event call of Normalize<Recorder>. Non-trivial iff >=2 features whose events interleave (more feature switches than features) and >=1 rule or retried attempt. Distinct = hash of the decoded stream.".into(),
             "C12" => "StreamLab: normalised (sequential) streams with every outcome path, fed to Summarize<Recorder> (every 3rd case under Repeat::failed); independent recount. Non-trivial iff >=1 retried attempt and >=1 hook failure or skipped step. Distinct = hash of the decoded stream.".into(),
-            "C13" => "StreamLab: arbitrary streams (sequential, interleaved, or rotated with a duplicated run-Finished) fed to each of 18 compiled nestings of FailOnSkipped/Repeat/Tee/Or/discard over recorder leaves with arbitrary Stats; a reference interpreter of the nesting's description predicts every leaf's exact sequence. Non-trivial iff the stream has a skipped step and a failed hook or parser error. Distinct = hash of stream + writes + leaf stats.".into(),
-            "C14" => "StreamLab: contract-abiding linearisations over features with decorated names (quotes, markup, non-ASCII, `]]>`), with/without path, same-named scenarios, retries, hook failures, parser errors; reporter options from the tape; output of Normalize<Basic|Libtest|Json|JUnit> parsed back by hand-written line / JSON / XML parsers into fact multisets compared with the stream's facts (both inclusions). Non-trivial iff a retried attempt and a name containing markup. Distinct = hash of stream + names + options.".into(),
+            "C13" => "StreamLab: arbitrary streams (sequential, interleaved, or rotated with a duplicated run-Finished) fed to each of 20 compiled nestings of FailOnSkipped/Repeat/Tee/Or/discard over recorder leaves with arbitrary Stats; a reference interpreter of the nesting's description predicts every leaf's exact sequence. Non-trivial iff the stream has a skipped step and a failed hook or parser error. Distinct = hash of stream + writes + leaf stats.".into(),
+            "C14" => "StreamLab: contract-abiding linearisations over features with decorated names (quotes, markup, non-ASCII, `]]>`), with/without path, same-named scenarios, retries, hook failures, parser errors; reporter options from the tape; output of Normalize<Basic|Libtest|Json|JUnit> parsed back by hand-written line / JSON / XML parsers into fact multisets compared with the stream's facts (both inclusions); Basic also with colours on, rendered through a VT interpreter; the [Summary] totals of Summarize<Normalize<Basic>> compared with the entries (streams with the D2/D5 shapes or an aborted retry chain not compared, counted). Non-trivial iff a retried attempt and a name containing markup. Distinct = hash of stream + names + options.".into(),
             "C01" => "Half of the cases run the real runner (RunnerLab: features x outcome plans x configuration x schedule) and record its stream, half generate contract-abiding streams directly (StreamLab); the stream is fed to a tape-chosen subset of 13 built-in stats pipelines (Summarize<Normalize<Basic>>, Normalize<Libtest>, Tee, Or, each with/without FailOnSkipped/Repeat) and to Cucumber::run_and_exit over a replaying runner; verdict recomputed from the stream. Non-trivial iff the stream has a non-final failure, a hook failure, a skipped step or a parser error.".into(),
             _ => String::new(),
         }
